@@ -457,6 +457,7 @@ def write_evidence(ctx, mod, nviol):
             'samples': ctx.samples[:6] if ctx.samples else [{'note': 'no correspondence cases were run'}],
             'disagreements_checked': len(ctx.disagreements),
             'distribution': ctx.coverage,
+            'code_reach': getattr(ctx, 'reach_report', None) or {'note': 'not measured on this run'},
             'tolerance_rel': REL_TOL,
             'notes': ctx.notes,
         },
@@ -467,6 +468,126 @@ def write_evidence(ctx, mod, nviol):
     d = VERIF / 'evidence'
     d.mkdir(exist_ok=True)
     (d / ('%s.json' % ctx.pid)).write_text(json.dumps(ev, indent=1, default=str))
+
+
+# ---------------------------------------------------------------- reach of the correspondence inside the anchored code
+class Reach:
+    """Which lines of the anchored source files the real-code side of the correspondence executed on THIS run.
+
+    A measurement, never a verdict: it goes into evidence/<id>.json (coverage.code_reach) so that a reader - and the
+    builder of a check - sees which branches of the code the model follows were actually driven by the generators; an
+    anchored function that was never entered or lines never executed inside an entered function are the places where
+    a changed implementation could differ from the model without the correspondence noticing.  sys.monitoring LINE
+    events with DISABLE after the first hit of every location: the cost is one callback per distinct line.
+    Only the main process is observed (worker processes of a thorough tier are not), so the numbers are lower bounds."""
+
+    def __init__(self, pid):
+        self.pid = pid
+        self.hit = {}          # realpath -> set(lines)
+        self.tid = None
+        self.files = {}
+        self.named = []
+        try:
+            for l in open(VERIF / 'properties.jsonl'):
+                p = json.loads(l)
+                if p['id'] != pid:
+                    continue
+                for f in p['anchors'].get('files', []):
+                    fp = (REPO / f)
+                    if fp.suffix == '.py' and fp.exists():
+                        self.files[str(fp.resolve())] = f
+                for m in p['anchors'].get('mechanism', []):
+                    self.named += re.findall(r'([A-Za-z_][A-Za-z0-9_]*)\(\)', m.get('name', ''))
+        except Exception:
+            pass
+
+    def start(self):
+        if not self.files or os.environ.get('VERIF_REACH', '1') == '0' or not hasattr(sys, 'monitoring'):
+            return
+        M = sys.monitoring
+        for t in (M.COVERAGE_ID, 5):
+            if M.get_tool(t) is None:
+                self.tid = t
+                break
+        if self.tid is None:
+            return
+        M.use_tool_id(self.tid, 'pydl-verif-reach')
+        files, hit, DIS = self.files, self.hit, M.DISABLE
+
+        def _line(code, line):
+            fn = code.co_filename
+            if fn in files:
+                hit.setdefault(fn, set()).add(line)
+            return DIS
+        M.register_callback(self.tid, M.events.LINE, _line)
+        M.set_events(self.tid, M.events.LINE)
+
+    def stop(self):
+        if self.tid is None:
+            return None
+        M = sys.monitoring
+        try:
+            M.set_events(self.tid, 0)
+            M.register_callback(self.tid, M.events.LINE, None)
+            M.free_tool_id(self.tid)
+        except Exception:
+            pass
+        self.tid = None
+        return self.report()
+
+    @staticmethod
+    def _functions(path):
+        """qualified name -> (first line, set of executable lines) for every function in the file"""
+        out = {}
+
+        def walk(co, qual):
+            for c in co.co_consts:
+                if hasattr(c, 'co_code'):
+                    q = (qual + '.' if qual else '') + c.co_name
+                    if c.co_name.startswith('<') and c.co_name != '<lambda>':
+                        # comprehensions / generator expressions belong to the enclosing function
+                        walk(c, qual)
+                        lines = {l for (_, _, l) in c.co_lines() if l}
+                        if qual in out:
+                            out[qual][1].update(lines)
+                        continue
+                    if not (c.co_flags & 0x1):      # a class body (no CO_OPTIMIZED): only a namespace for its methods
+                        walk(c, q)
+                        continue
+                    lines = {l for (_, _, l) in c.co_lines() if l}
+                    lines.discard(c.co_firstlineno)
+                    out[q] = [c.co_firstlineno, lines]
+                    walk(c, q)
+        walk(compile(open(path).read(), path, 'exec'), '')
+        return out
+
+    def report(self):
+        rep = {'note': 'lines of the anchored files executed by the implementation side of this run (main process only; lower bound)',
+               'files': {}}
+        entered_names = set()
+        for path, rel in self.files.items():
+            try:
+                fns = self._functions(path)
+            except Exception as e:
+                rep['files'][rel] = {'error': str(e)[:200]}
+                continue
+            hit = self.hit.get(path, set())
+            ent, tot, got, missed = [], 0, 0, {}
+            for q, (first, lines) in sorted(fns.items(), key=lambda kv: kv[1][0]):
+                h = lines & hit
+                if not h:
+                    continue
+                ent.append(q)
+                entered_names.add(q.split('.')[-1])
+                tot += len(lines)
+                got += len(h)
+                if lines - h:
+                    missed[q] = sorted(lines - h)[:40]
+            rep['files'][rel] = {'functions_entered': ent, 'lines_in_entered_functions': tot, 'lines_executed': got,
+                                 'not_executed': missed}
+        never = sorted({n for n in self.named if n not in entered_names})
+        rep['anchored_functions_never_entered_in_main_process'] = never
+        return rep
 
 
 # ---------------------------------------------------------------- shrinking
